@@ -630,7 +630,9 @@ def _oracle(base, prog, res):
             if sig != ref:
                 probs.append(("dtype", "frame %d %s %r has dtype %s, the full read has %s" % (
                     k, "index level" if name in index_names(df) else "column", name, sig, ref)))
-        if cats_arg is None and len(df) > 0:
+        if cats_arg is None:
+            # (also for an EMPTY frame: full.head(0) keeps the labels; what an empty SELECTION - no row group to read a
+            #  dictionary from - delivers instead is the open finding C06-empty-selection-placeholder-categories)
             for name, oc in frame_categories(df).items():
                 ref = base["full_categories"].get(name)
                 if ref is not None and name not in base["pcols"] and oc != ref:
@@ -892,6 +894,9 @@ def classify(ds, base, prog, probs, res):
         comp = "multi-index"
     elif base["pcols"] and nsel == 0 and what in ("columns", "error"):
         comp = "empty-selection-partition-columns"
+    elif nonempty == 0 and probs and all(p[0] == "dtype" and "categorical column" in p[1] for p in probs):
+        # no row group selected (empty slice, a filter that keeps nothing): no dictionary page is read
+        comp = "empty-selection-placeholder-categories"
     elif "NAType" in msg and any(k in F.NULLABLE_INT or k == "boolean" or
                                  (k == "cat_int" and rd[0] == "iter" and rd[3] is not None and n not in rd[3])   # read as nullable int
                                  for n, k in zip(inames, ikinds)):
@@ -974,6 +979,15 @@ def confirmation_programs(rng, ds, base):
         dflt = {"kind": "default", "names": []}
         for n in sorted({-1, -rng.randint(1, base["total"]), -(base["total"] + 1)}):
             out.append({"ops": [] if rng.random() < 0.6 else [gen_slice(rng)], "rd": ["head", n, None, dflt], "stream": "head-negative"})
+    # EMPTY frames taken from a handle that has rows: head(0) with index default / False / a name, all columns and a subset with the
+    # categorical columns, on the handle and on a slice; a row filter / filter that keeps nothing is the empty-selection case
+    if base["total"] > 0:
+        cats_ = [c for c in base["cat_cols"] if c in base["cols"]]
+        sub = (cats_ + ["id"]) if cats_ else ["id", "u"]
+        for idx in ({"kind": "default", "names": []}, {"kind": "false", "names": []}, {"kind": "str", "names": ["u"]}):
+            out.append({"ops": [], "rd": ["head", 0, None, idx], "stream": "head-zero"})
+            out.append({"ops": [gen_slice(rng)], "rd": ["head", 0, list(sub), idx], "stream": "head-zero"})
+        out.append({"ops": [["pickle"]] if ds["open"] != "filelike" else [["copy"]], "rd": ["head", 0, list(sub), {"kind": "default", "names": []}], "stream": "head-zero"})
     # two names over REQUIRED numeric columns only: with an optional column as a level the real code stores raw values as
     # level codes and the frame cannot even be inspected safely (segfault seen) - recorded in the finding, not re-run here
     distinct_nonempty = len(set(g[0] for g in base["rgs"] if g[1] > 0))
